@@ -172,6 +172,22 @@ func c15KeyCheck(c c15Key) (fs []rep.Finding) {
 	}
 	wantAddr := refAddrEncode(hash, c.Mainnet)
 	wantScript := refP2PKH(hash)
+	// what the constructors are handed are windows of larger buffers (a hash cut out of a decoded
+	// address, a key inside a message): the bytes behind them are the caller's too
+	canary := bytes.Repeat([]byte{0xC5}, 16)
+	hbuf := append(append(make([]byte, 0, 64), hash...), canary...)
+	hashArg := hbuf[:len(hash)]
+	var pbuf, pubArg []byte
+	if pub != nil {
+		pbuf = append(append(make([]byte, 0, 96), pub...), canary...)
+		pubArg = pbuf[:len(pub)]
+	}
+	defer func() {
+		if !bytes.Equal(hbuf[:len(hash)], hash) || !bytes.Equal(hbuf[len(hash):len(hash)+16], canary) ||
+			(pub != nil && (!bytes.Equal(pbuf[:len(pub)], pub) || !bytes.Equal(pbuf[len(pub):len(pub)+16], canary))) {
+			fs = append(fs, rep.F("argument-buffer-modified", "a constructor wrote into the caller's hash / key buffer or the bytes behind it"))
+		}
+	}()
 	chkAddr := func(api string, a *bscript.Address, err error) {
 		if err != nil {
 			fs = append(fs, rep.F("derive-error|"+api, err.Error()))
@@ -181,7 +197,7 @@ func c15KeyCheck(c c15Key) (fs []rep.Finding) {
 			fs = append(fs, rep.F("derive-mismatch|"+api, fmt.Sprintf("got %s want %s", a.AddressString, wantAddr)))
 		}
 	}
-	a, err := bscript.NewAddressFromPublicKeyHash(hash, c.Mainnet)
+	a, err := bscript.NewAddressFromPublicKeyHash(hashArg, c.Mainnet)
 	chkAddr("NewAddressFromPublicKeyHash", a, err)
 	if pub != nil {
 		a, err = bscript.NewAddressFromPublicKey(pk, c.Mainnet)
@@ -231,7 +247,7 @@ func c15KeyCheck(c c15Key) (fs []rep.Finding) {
 		s2, err := mk()
 		chk(api+"/second-call", s2, err)
 	}
-	again("NewP2PKHFromPubKeyHash", func() (*bscript.Script, error) { return bscript.NewP2PKHFromPubKeyHash(hash) })
+	again("NewP2PKHFromPubKeyHash", func() (*bscript.Script, error) { return bscript.NewP2PKHFromPubKeyHash(hashArg) })
 	again("NewP2PKHFromPubKeyHashStr", func() (*bscript.Script, error) { return bscript.NewP2PKHFromPubKeyHashStr(hex.EncodeToString(hash)) })
 	again("NewP2PKHFromAddress", func() (*bscript.Script, error) { return bscript.NewP2PKHFromAddress(wantAddr) })
 	again("PayToAddress", func() (*bscript.Script, error) {
@@ -242,9 +258,9 @@ func c15KeyCheck(c c15Key) (fs []rep.Finding) {
 		return tx.Outputs[0].LockingScript, nil
 	})
 	if pub != nil {
-		again("NewP2PKHFromPubKeyBytes", func() (*bscript.Script, error) { return bscript.NewP2PKHFromPubKeyBytes(pub) })
+		again("NewP2PKHFromPubKeyBytes", func() (*bscript.Script, error) { return bscript.NewP2PKHFromPubKeyBytes(pubArg) })
 	}
-	s, err := bscript.NewP2PKHFromPubKeyHash(hash)
+	s, err := bscript.NewP2PKHFromPubKeyHash(hashArg)
 	chk("NewP2PKHFromPubKeyHash", s, err)
 	s, err = bscript.NewP2PKHFromPubKeyHashStr(hex.EncodeToString(hash))
 	chk("NewP2PKHFromPubKeyHashStr", s, err)
@@ -267,13 +283,13 @@ func c15KeyCheck(c c15Key) (fs []rep.Finding) {
 	})
 	out("PayTo", func(tx *bt.Tx) error { return tx.PayTo(bscript.NewFromBytes(refP2PKH(hash)), 5) })
 	if pub != nil {
-		s, err = bscript.NewP2PKHFromPubKeyBytes(pub)
+		s, err = bscript.NewP2PKHFromPubKeyBytes(pubArg)
 		chk("NewP2PKHFromPubKeyBytes", s, err)
 		s, err = bscript.NewP2PKHFromPubKeyStr(hex.EncodeToString(pub))
 		chk("NewP2PKHFromPubKeyStr", s, err)
 		s, err = bscript.NewP2PKHFromPubKeyEC(pk)
 		chk("NewP2PKHFromPubKeyEC", s, err)
-		out("AddP2PKHOutputFromPubKeyBytes", func(tx *bt.Tx) error { return tx.AddP2PKHOutputFromPubKeyBytes(pub, 5) })
+		out("AddP2PKHOutputFromPubKeyBytes", func(tx *bt.Tx) error { return tx.AddP2PKHOutputFromPubKeyBytes(pubArg, 5) })
 		out("AddP2PKHOutputFromPubKeyStr", func(tx *bt.Tx) error { return tx.AddP2PKHOutputFromPubKeyStr(hex.EncodeToString(pub), 5) })
 	}
 	if pub != nil && c.Mainnet {
